@@ -1,6 +1,6 @@
 """C01 — each accepted connection reaches exactly one call of its listener's service (accept-loop side)."""
 from common import Stream
-from props.srvlib import (COMMON_META, gen_scripts, compare, shrink_ops, parse_case, parse_trace, env_ops_of,
+from props.srvlib import (COMMON_META, bld_stream, gen_scripts, compare, shrink_ops, parse_case, parse_trace, env_ops_of,
                           first_fault_index, in_progress, settled_epilogue, undispatched)
 
 META = dict(COMMON_META)
@@ -192,4 +192,5 @@ def streams(ctx):
                    describe="%d generated scripts (with and without worker faults, one or two listeners) + corpus; every snapshot compared; "
                             "on the implementation trace: no id in two places, token = listener connected to, dispatched at most once and to the "
                             "worker holding it, no reappearance, departures only by completion/drain/kill, no gap in a listener's FIFO while a "
-                            "worker lives, everything dispatched after settling" % n)]
+                            "worker lives, everything dispatched after settling" % n),
+            bld_stream(ctx, ("C01",), ["", "c", "ci"], 64, 1500)]
